@@ -39,7 +39,7 @@ ASSUMPTIONS = [
     "the scheduler does not model locks: cm_colors takes none; a stall is a HARNESS-ERROR, never a verdict",
     "text results embedding the sandbox path are normalised to <SBX>",
 ]
-PROBES = ["H_runs", "H_ops", "H_probes_after_change", "H_cli_ops", "H_bulk_ops", "H_show_save_ops", "H_slot_reuse", "H_repeat_same_op", "H_alias_family_ops", "H_bulk_position_probes", "H_flood_ops", "H_heavy_distinct_fix_ops", "H_host_warning_filter_windows", "H_ops_under_warnings_as_errors", "H_clock_jump_windows", "T_runs_under_jumping_clock",
+PROBES = ["H_runs", "H_ops", "H_probes_after_change", "H_cli_ops", "H_bulk_ops", "H_show_save_ops", "H_slot_reuse", "H_repeat_same_op", "H_alias_family_ops", "H_bulk_position_probes", "H_flood_ops", "H_heavy_distinct_fix_ops", "H_fed_back_result_ops", "H_host_warning_filter_windows", "H_ops_under_warnings_as_errors", "H_clock_jump_windows", "T_runs_under_jumping_clock",
           "T_runs", "T_threads", "T_ops", "T_steps", "T_switches", "T_hot_line_hits", "T_switch_in_optimisation", "T_mode_different",
           "T_mode_same", "T_mode_shared_object", "T_runs_with_switch_inside_call", "T_shared_object_first_touch_in_threads", "P_runs", "P_ops", "P_interpreters"]
 
@@ -220,6 +220,27 @@ def generate(rseed, tier, idx):
                     op = {"op": "bulk", "pairs": [[tt, bb]], "mode": mode, "vr": vr, "alias": True}
                 ops.insert(g.randrange(len(ops) + 1), op)
         if g.random() < 0.3:
+            # the same OPAQUE text colour on several backgrounds at different points of the history, the first of them
+            # (nearly) the text colour itself, so that the first fix gets stuck or fails: whatever a failed search leaves behind
+            # is keyed, if at all, by this colour
+            trgb = gen.rand_rgb(g)
+            tsp = enc(gen.spell(g, trgb, ("hex6", "rgb", "hex6"))[0])
+            near = tuple(max(0, min(255, c + g.choice((-40, -25, -10, 10, 25, 40)))) for c in trgb)
+            bgs = [near] + [g.choice(((255, 255, 255), (0, 0, 0), gen.rand_rgb(g), gen.rand_rgb(g))) for _ in range(g.randint(1, 3))]
+            pos = sorted(g.randrange(len(ops) + 1) for _ in bgs)
+            md = g.choice((1, 1, None, 2))
+            for k, (bgc, at) in enumerate(zip(bgs, pos)):
+                ops.insert(at + k, {"op": "make", "t": tsp, "b": enc("#%02x%02x%02x" % tuple(bgc)), "large": False, "mode": md, "vr": False, "alias": True})
+        if g.random() < 0.25:
+            # "feed the result back": the text of a later call is the colour an earlier make call returned
+            mk = [i for i, o in enumerate(ops) if o["op"] == "make"]
+            if mk:
+                src = g.choice(mk)
+                _t, b2, large2 = _pair(g)
+                fu = {"op": "make", "t": ops[src]["t"], "t_from_op": base.digest({k: v for k, v in ops[src].items() if k not in ("again", "alias", "show", "save")}),
+                      "b": g.choice((ops[src]["b"], b2)), "large": ops[src].get("large", False), "mode": g.choice((0, 1, None, 2)), "vr": g.random() < 0.6}
+                ops.insert(g.randrange(src + 1, len(ops) + 1), fu)
+        if g.random() < 0.3:
             # one modern / unusual CSS spelling (accepted or rejected - either way always the same answer) at several points
             # of the history, next to an ordinary colour of the same family
             txt = g.choice(gen.NEAR_CSS)
@@ -316,7 +337,7 @@ def run_cli_op(op):
 
 
 def _run_any(op, ctx, root):
-    sop = {k: v for k, v in op.items() if k not in ("again", "alias", "flood", "heavy")}
+    sop = {k: v for k, v in op.items() if k not in ("again", "alias", "flood", "heavy", "t_from_op")}
     if sop["op"] == "cli":
         return run_cli_op(sop)
     with apiops.Effects(root) as fx:
@@ -372,8 +393,13 @@ def _exec_H(trace):
     cache = {}
     model = apiops.Ctx()
     expect = []
+    trace = dict(trace, ops=copy.deepcopy(trace["ops"]))  # (fed-back texts are filled in below, on a private copy)
+    returned = {}
     for op in trace["ops"]:
-        sop = {k: v for k, v in op.items() if k not in ("again", "alias", "flood", "heavy")}
+        if op.get("t_from_op") is not None and returned.get(op["t_from_op"]) is not None:
+            op["t"] = returned[op["t_from_op"]]  # the colour the earlier call returns in a pristine process
+            bump("H_fed_back_result_ops")
+        sop = {k: v for k, v in op.items() if k not in ("again", "alias", "flood", "heavy", "t_from_op")}
         if sop["op"] == "env":
             expect.append((sop, None))
             continue
@@ -381,6 +407,10 @@ def _exec_H(trace):
             model.slot_spec[sop["slot"]] = {"t": sop["t"], "b": sop["b"], "large": sop.get("large", False)}
         eq = sop if sop["op"] == "cli" else apiops.fresh_equivalent(sop, model)
         expect.append((eq, _oracle_any(eq, cache)))
+        if sop["op"] == "make" and "ret" in expect[-1][1]:
+            got = dec(expect[-1][1]["ret"])
+            if isinstance(got, tuple) and len(got) == 2 and got[0] is not None:
+                returned[base.digest({k: v for k, v in sop.items() if k not in ("show", "save")})] = enc(got[0])
     # one-entry bulk oracles are evaluated lazily in forks of THIS process; to keep them pristine they are
     # computed before the history starts
     cache_one = {}
@@ -480,7 +510,7 @@ def _exec_H(trace):
             bump("H_clock_reads_by_cm_colors", seams.uninstall_sim_clock())
         base.rm_tree(root)
     return {"violations": vio, "digest": base.digest(events), "nontrivial": nontrivial, "stats": stats, "steps": stats.get("H_ops", 0),
-            "measures": {"distinct_histories(op lists)": base.digest([{k: v for k, v in o.items() if k not in ("again", "alias", "flood", "heavy")} for o in trace["ops"]])}}
+            "measures": {"distinct_histories(op lists)": base.digest([{k: v for k, v in o.items() if k not in ("again", "alias", "flood", "heavy", "t_from_op")} for o in trace["ops"]])}}
 
 
 def _brief(op):
